@@ -136,7 +136,7 @@ def cases(tier, seed):
                 for msel in ("1", "rand", "npca"):
                     out.append(_draw(gen.rng_for(1019, i), kind, tsel, qsel, msel))
                     i += 1
-    nrand = 1000 if tier == "quick" else 24000
+    nrand = 1000 if tier == "quick" else 16000
     for j in range(nrand):
         out.append(_draw(gen.rng_for(seed, 19, j)))
     return out
